@@ -53,10 +53,21 @@ type world struct {
 	pingT    time.Duration
 	events   int
 	released bool
+	// per-socket options taken from the CONNECT auth payload by the middleware
+	opts       map[string]sockOpts
+	byeStarted chan struct{} // a "slowbye" socket has entered its disconnecting handler
+	stops      []chan struct{}
+}
+
+type sockOpts struct {
+	Park    bool `json:"park"`
+	Joiner  bool `json:"joiner"`  // goroutines keep calling Join/Leave on the socket until shortly after its disconnect handler
+	SlowBye bool `json:"slowbye"` // the disconnecting handler takes 40 ms
 }
 
 func newWorld(pingI, pingT time.Duration) (*world, error) {
-	w := &world{socks: map[string]*sockRec{}, nsps: []string{"/", "/b"}, parked: make(chan string, 64), pingI: pingI, pingT: pingT}
+	w := &world{socks: map[string]*sockRec{}, nsps: []string{"/", "/b"}, parked: make(chan string, 64), pingI: pingI, pingT: pingT,
+		opts: map[string]sockOpts{}, byeStarted: make(chan struct{}, 8)}
 	cfg := &sio.ServerConfig{}
 	cfg.EIO.PingInterval = pingI
 	cfg.EIO.PingTimeout = pingT
@@ -73,10 +84,11 @@ func newWorld(pingI, pingT time.Duration) (*world, error) {
 	for _, name := range w.nsps {
 		nsp := srv.IO.Of(name)
 		nsp.Use(func(s sio.ServerSocket, h *sio.Handshake) any {
-			var a struct {
-				Park bool `json:"park"`
-			}
+			var a sockOpts
 			json.Unmarshal(h.Auth, &a)
+			w.mu.Lock()
+			w.opts[string(s.ID())] = a
+			w.mu.Unlock()
 			if a.Park {
 				w.mu.Lock()
 				ch := w.park
@@ -98,9 +110,49 @@ func newWorld(pingI, pingT time.Duration) (*world, error) {
 				w.order = append(w.order, rec)
 			}
 			rec.connected++
+			opt := w.opts[rec.id]
 			w.mu.Unlock()
-			s.OnDisconnecting(func(r sio.Reason) { w.mu.Lock(); rec.disconnecting = append(rec.disconnecting, string(r)); w.mu.Unlock() })
+			s.OnDisconnecting(func(r sio.Reason) {
+				w.mu.Lock()
+				rec.disconnecting = append(rec.disconnecting, string(r))
+				w.mu.Unlock()
+			})
 			s.OnDisconnect(func(r sio.Reason) { w.mu.Lock(); rec.disconnect = append(rec.disconnect, string(r)); w.mu.Unlock() })
+			if opt.SlowBye {
+				s.OnDisconnecting(func(sio.Reason) {
+					select {
+					case w.byeStarted <- struct{}{}:
+					default:
+					}
+					time.Sleep(40 * time.Millisecond)
+				})
+			}
+			if opt.Joiner {
+				stop := make(chan struct{})
+				w.mu.Lock()
+				w.stops = append(w.stops, stop)
+				w.mu.Unlock()
+				var once sync.Once
+				s.OnDisconnect(func(sio.Reason) {
+					time.AfterFunc(20*time.Millisecond, func() { once.Do(func() { close(stop) }) })
+				})
+				for g := 0; g < 4; g++ {
+					go func(g int) {
+						for i := 0; ; i++ {
+							select {
+							case <-stop:
+								return
+							default:
+							}
+							room := sio.Room(fmt.Sprintf("jr%d", (g+i)%5))
+							s.Join(room)
+							if i%3 == 0 {
+								s.Leave(room)
+							}
+						}
+					}(g)
+				}
+			}
 			s.OnEvent("e", func(n int) { w.mu.Lock(); w.events++; w.mu.Unlock() })
 			s.OnEvent("ea", func(n int, ack func(int)) { ack(n) })
 			s.OnEvent("burst-me", func(n int) {
@@ -117,6 +169,16 @@ func newWorld(pingI, pingT time.Duration) (*world, error) {
 func (w *world) close() {
 	w.px.Close()
 	w.srv.Close()
+	w.mu.Lock()
+	stops := w.stops
+	w.stops = nil
+	w.mu.Unlock()
+	for _, st := range stops {
+		func() {
+			defer func() { recover() }() // already closed by the disconnect handler
+			close(st)
+		}()
+	}
 }
 
 func (w *world) url() string { return w.px.URL("/socket.io/") }
@@ -235,8 +297,10 @@ var reasonSets = map[string][]string{
 	"client-nsp-disconnect":   {"client namespace disconnect"},
 	"client-transport-close":  {"transport close", "transport error"},
 	"server-disconnect-false": {"server namespace disconnect"},
-	"server-disconnect-true":  {"server namespace disconnect", "forced server close"},
-	"disconnect-sockets-true": {"server namespace disconnect", "forced server close"},
+	// "forced close": what a socket of ANOTHER namespace is told when it was admitted while the connection
+	// was already being closed by Disconnect(true) (the reason the Engine.IO layer reported); it names the cause
+	"server-disconnect-true":  {"server namespace disconnect", "forced server close", "forced close"},
+	"disconnect-sockets-true": {"server namespace disconnect", "forced server close", "forced close"},
 	"server-close":            {"server shutting down"},
 	"tcp-cut":                 {"transport close", "transport error", "ping timeout"},
 	"blackhole":               {"ping timeout"},
@@ -299,7 +363,9 @@ func inject(w *world, cause string, peer *rawpeer.SIO, ss sio.ServerSocket) {
 	}
 }
 
-func causeEndsSession(cause string) bool { return cause != "client-nsp-disconnect" && cause != "server-disconnect-false" }
+func causeEndsSession(cause string) bool {
+	return cause != "client-nsp-disconnect" && cause != "server-disconnect-false"
+}
 
 func runTrial(run *vk.Run, t trialSpec) {
 	run.Eval(1)
@@ -409,6 +475,42 @@ func runTrial(run *vk.Run, t trialSpec) {
 			w.px.CutAll()
 			peer.C.Abort()
 		}
+	case "join-storm":
+		// Join / Leave keep running on the socket from four goroutines while it is being closed
+		if !connectAndWait(map[string]any{"joiner": true}) {
+			return
+		}
+		time.Sleep(time.Duration(1+run.Rand(t.id()).Intn(3)) * time.Millisecond)
+		inject(w, t.Cause, peer, ss)
+	case "parked-second-nsp":
+		// "/" is connected and slow to say goodbye; the CONNECT for "/b" is parked in a middleware and is
+		// released at the moment the close of the connection has reached "/"'s disconnecting handler
+		if !connectAndWait(map[string]any{"slowbye": true}) {
+			return
+		}
+		w.mu.Lock()
+		w.park = make(chan struct{})
+		park := w.park
+		w.mu.Unlock()
+		peer.SendPacket(&refcodec.Packet{Type: refcodec.Connect, Namespace: "/b", HasData: true, Data: map[string]any{"park": true}})
+		select {
+		case <-w.parked:
+		case <-time.After(30 * time.Second):
+			run.Inconclusive(t.id() + ": middleware not reached")
+			close(park)
+			return
+		}
+		released := make(chan struct{})
+		go func() {
+			select {
+			case <-w.byeStarted:
+			case <-time.After(pingI + pingT + 10*time.Second):
+			}
+			close(park)
+			close(released)
+		}()
+		inject(w, t.Cause, peer, ss)
+		<-released
 	case "two-namespaces":
 		if !connectAndWait(nil) {
 			return
@@ -550,13 +652,13 @@ func runCutScript(run *vk.Run, w *world, dir int, k int64, transport string) (to
 func main() {
 	run := vk.Start("C06", "fault_enumeration")
 	run.Rule("trials = termination cause {client namespace disconnect, client transport close, server Disconnect(false/true), DisconnectSockets, Server.Close, TCP cut, black-hole (ping timeout), protocol garbage, request with the wrong transport} " +
-		"x phase {before CONNECT, inside a parked namespace middleware, connected idle, mid-burst c->s, mid-burst s->c, during the polling->websocket upgrade, two namespaces} x transport; " +
+		"x phase {before CONNECT, inside a parked namespace middleware, connected idle, mid-burst c->s, mid-burst s->c, during the polling->websocket upgrade, two namespaces, Join/Leave storm on the socket from 4 goroutines, second namespace's CONNECT parked in a middleware and released while the first socket runs its (slow) disconnecting handler} x transport; " +
 		"scripted sessions cut at every k-th byte of the TCP stream in each direction; several causes at once; distinct = (cause, phase, transport, number of disconnect handlers observed)")
 	run.Assume("quiescence = sweep stable and clean, watchdog pingInterval+pingTimeout+15 s (server keeps the sid until user close handlers return)",
 		"the monitor registers its disconnect handlers inside the connection handler, as applications do")
 
 	causes := []string{"client-nsp-disconnect", "client-transport-close", "server-disconnect-false", "server-disconnect-true", "disconnect-sockets-true", "server-close", "tcp-cut", "blackhole", "garbage", "wrong-transport-poll"}
-	phases := []string{"before-connect", "in-middleware", "connected-idle", "mid-burst-c2s", "mid-burst-s2c", "during-upgrade", "two-namespaces"}
+	phases := []string{"before-connect", "in-middleware", "connected-idle", "mid-burst-c2s", "mid-burst-s2c", "during-upgrade", "two-namespaces", "join-storm", "parked-second-nsp"}
 	var specs []trialSpec
 	for _, c := range causes {
 		for _, p := range phases {
